@@ -50,7 +50,8 @@ use std::fmt;
 const UNKNOWN_CHAR: char = '�';
 
 fn encode_unicode(s: Option<&str>) -> char {
-    s.and_then(|s| u32::from_str_radix(s, 16).ok().and_then(char::from_u32))
+    s.filter(|s| s.bytes().all(|b| b.is_ascii_hexdigit()))
+        .and_then(|s| u32::from_str_radix(s, 16).ok().and_then(char::from_u32))
         .unwrap_or(UNKNOWN_CHAR)
 }
 
